@@ -229,7 +229,9 @@ CHECKS["C19"] = dict(
          "input parsing, the error wrappers) with theorems for ALL operation sequences: online there is no host output, no eval/exec of user "
          "text, no propagated exception, and the output record equals the offline stdout; kernel-checked sinks_accounted over the regenerated "
          "inventory of every syntactic sink call (in vyxal/*.py AND inside the element templates) with its dominating ctx.online tests, and "
-         "user_text_sinks_guarded over the audited classification. Tie: translator (inventory) + child-process runs under sys.addaudithook "
+         "user_text_sinks_guarded over the audited classification, and containment_handlers_broad over the regenerated inventory of every "
+         "try statement: the five error-containment sites (vy_eval online, get_input, the three stages of execute_vyxal) exist and catch "
+         "Exception. Tie: translator (inventory) + child-process runs under sys.addaudithook "
          "with fd-level stdout capture and tainted inputs / literals: host stdout empty, no tainted compile/exec outside string constants of "
          "generated code, no os.system / subprocess / socket events, errors end in the error record, record == offline stdout.",
     note=COMMON_NOTE + "Partial: the theorem is over the effect model; that no other path reaches a sink rests on the syntactic inventory (T8) and the audit-hook runs. "
